@@ -109,7 +109,10 @@ def oracle(ref, kind, eta, theta, m, before, top, prints):
     # printed counts
     for p in prints:
         if isinstance(p, str) and p.startswith('Marked '):
-            n = int(p.split()[1])
+            try:
+                n = int(p.split()[1])
+            except (ValueError, IndexError):
+                continue  # a reworded message is not a property violation
             if ' / ' in p and n != len(marked):
                 return ('printed-count', p)
             if 'time' in p and n != len(mt):
